@@ -368,10 +368,41 @@ def rule_r4_r5(chk: Check) -> None:
     chk.floor("R5", "raw write sites", n, 1)
 
 
+def rule_r6(chk: Check) -> None:
+    """close() right after write() relies on the transport flushing what is
+    queued.  For ssl= listeners asyncio abandons that flush after
+    ssl_shutdown_timeout (default 30 s) and discards the rest: shortening it
+    makes a slow reader lose the tail of a large response on this backend only."""
+    chk.rule("R6", "listeners do not shorten asyncio's TLS shutdown grace period (ssl_shutdown_timeout absent or >= the 30 s default): close() after write() keeps flushing the queued response")
+    n = 0
+    for mi in chk.proj.modules.values():
+        if not mi.name.startswith("server"):
+            continue
+        for fi in mi.functions.values():
+            for c in calls(fi.node):
+                if not (method_call(c) and method_call(c)[1] in ("create_server", "start_server")):
+                    continue
+                n += 1
+                v = kwarg(c, "ssl_shutdown_timeout")
+                ok = True
+                if v is not None:
+                    val = chk.proj.eval_const(fi.module, v)
+                    ok = (isinstance(val, (int, float)) and not isinstance(val, bool) and val >= 30) or (isinstance(v, ast.Constant) and v.value is None)
+                    if not ok:
+                        chk.finding(
+                            "R6", fi.key, f"shutdown-timeout:{norm(v)[:30]}",
+                            f"the listener is created with ssl_shutdown_timeout={norm(v)} (= {val!r}): asyncio force-closes the connection that long after close() and discards what is still queued, so a response a slow client has not finished reading is truncated (the PyOpenSSL backend still delivers it: the backends diverge)",
+                            fi.loc(c),
+                        )
+                chk.ob("R6", f"{fi.key}: `{norm(c.func)}` keeps the default shutdown grace period", ok)
+    chk.require("R6", "server.server", "listener creation sites", n, 1, "no listener is created any more")
+
+
 def run(chk: Check) -> None:
     rule_r1(chk)
     rule_r2(chk)
     rule_r3(chk)
     rule_r4_r5(chk)
+    rule_r6(chk)
     chk.trusted = ["CPython ast parser", "engine resolver (attribute annotations)", "asyncio transports deliver everything given to write() before close() completes", "OpenSSL.SSL.Connection.sendall loops until everything is written"]
     chk.assumptions = ["record/buffer boundary behaviour and back-pressure are not decided"]
